@@ -176,7 +176,7 @@ func drawInstant(t *rapid.T) Instant {
 }
 
 var specInstants = pbt.Register(pbt.Spec[Instant]{
-	Prop: "C19", Name: "calendar-random-instants",
+	Prop: "C19", Name: "calendar-random-instants", Parallel: 8,
 	Rule:  "rapid-drawn instants of the century, drawn field by field (year, month, day, hour, minute, second, millisecond; each either over its whole range or from its edge values: first/last day of a month, 59 -> 00 roll-overs, five-minute borders, one-/two-/three-digit milliseconds); same comparison as the day sweep, which includes the unit functions one millisecond before and at the surrounding step borders; non-trivial = offset not in the fixed list of the sweep; distinct by instant",
 	Quick: 1500000, Thorough: 7305000,
 	Draw: drawInstant,
@@ -216,6 +216,9 @@ type FmtCase struct {
 	// Seq: further instants (cumulative millisecond steps from T, kept inside the century) formatted
 	// one after the other by the SAME DateFormat object
 	Seq []int64 `json:"seq,omitempty"`
+	// Zone: the process's local zone for this case, minutes east of UTC (Parse reads the fields in the local zone,
+	// FormatTime is given the instant in that zone); 0 = UTC
+	Zone int `json:"zone,omitempty"`
 }
 
 const fieldLetters = "ymdHMSs"
@@ -277,7 +280,17 @@ func runFmt(c FmtCase) *pbt.Result {
 	if nfields == 0 || (present['y'] != present['m'] || present['m'] != present['d']) {
 		panic("pattern outside the precondition (date letters all or none, at least one field): " + c.Pattern)
 	}
-	want := time.UnixMilli(c.T).In(time.Local) // the zone Parse interprets the fields in (pinned to UTC)
+	if c.Zone != 0 {
+		// a day away from both ends of the century, so that the local date stays inside it
+		if c.T < baseMs+msDay || c.T >= endMs-msDay {
+			c.Zone = 0
+		} else {
+			old := time.Local
+			time.Local = time.FixedZone(fmt.Sprintf("UTC%+d", c.Zone), c.Zone*60)
+			defer func() { time.Local = old }()
+		}
+	}
+	want := time.UnixMilli(c.T).In(time.Local) // the zone Parse interprets the fields in
 	df := dateutil.NewDateFormat(c.Pattern)
 	text := df.FormatTime(want)
 	fresh := dateutil.NewDateFormat(c.Pattern)
@@ -352,12 +365,15 @@ func runFmt(c FmtCase) *pbt.Result {
 
 var specFmt = pbt.Register(pbt.Spec[FmtCase]{
 	Prop: "C19", Name: "dateformat-roundtrip",
-	Rule:  "patterns over the field letters y m d H M S s (date letters all present or all absent, any subset/order of the time letters, occasionally a repeated letter) with optional literal separators (ASCII punctuation, T, Z, multi-byte runes) and an instant of the century drawn field by field with edge values; Parse(Format(t)) must agree with t on every field present (and equal t when all seven are present), with a fresh and with a re-used DateFormat; in a third of the cases the same object then formats 1-5 further instants (steps of 1 ms .. 1 day, also backwards): each text must equal what a fresh object produces and parse back to its instant; non-trivial = >= 3 fields; distinct by (pattern, instant)",
+	Rule:  "patterns over the field letters y m d H M S s (date letters all present or all absent, any subset/order of the time letters, occasionally a repeated letter) with optional literal separators (ASCII punctuation, T, Z, multi-byte runes) and an instant of the century drawn field by field with edge values; Parse(Format(t)) must agree with t on every field present (and equal t when all seven are present), with a fresh and with a re-used DateFormat, in a third of the cases with the process's local zone set to a fixed offset between -12 h and +13 h (Parse reads the fields in the local zone); in a third of the cases the same object then formats 1-5 further instants (steps of 1 ms .. 1 day, also backwards): each text must equal what a fresh object produces and parse back to its instant; non-trivial = >= 3 fields; distinct by (pattern, instant)",
 	Quick: 300000, Thorough: 1500000,
 	Draw: func(t *rapid.T) FmtCase {
 		c := FmtCase{Pattern: drawPattern(t)}
 		in := drawInstant(t)
 		c.T = baseMs + int64(in.Day)*msDay + in.Off
+		if rapid.IntRange(0, 2).Draw(t, "zone?") == 0 {
+			c.Zone = rapid.SampledFrom([]int{540, -480, 330, 345, -210, 60, -60, 780, -720}).Draw(t, "zone")
+		}
 		if rapid.IntRange(0, 2).Draw(t, "sequence") == 0 {
 			c.Seq = rapid.SliceOfN(rapid.SampledFrom([]int64{1, 1, 2, 10, 500, 999, 1000, 1001, -1, -999, 59999, 60000, 3600000, 86400000, -86400000}), 1, 5).Draw(t, "seq")
 		}
